@@ -477,6 +477,14 @@ func randomData(r *Rand, tag string) DataSpec {
 	if d.Shape == "map" && r.Chance(35) {
 		d.Alt = 1 + r.Intn(2)
 	}
+	// scale knobs, rarely: long lists (pooled scope maps and buffers beyond their initial sizes, ids past one digit),
+	// maps with more than eight entries, long strings
+	if r.Chance(5) {
+		d.Items = Pick(r, []int{9, 11, 17, 40, 130})
+	}
+	if r.Chance(5) {
+		d.Big = true
+	}
 	return d
 }
 
